@@ -73,6 +73,8 @@ def run(ck, facts, tier):
     # "a Hessian, read back per variable pair": the read-back rules of gradient1/gradient2 on Dual2 (C17 R17.1/R17.2) are necessary conditions here too
     from rules import c17
     c17.run(ck, facts, tier, only={"gradient1[Dual2]", "gradient2[Dual2]"})
+    from rules import deps
+    deps.include_alignment(ck, facts, tier)
     ck.not_decided += ["IEEE rounding; library kernels are atoms", "symmetry of a user-supplied asymmetric dual2 array",
                        "Hessian read-back factor 2 is C17's R17.2 (shared rule)"]
     ck.trusted += ["lib/oracle.py", "lib/cel.py"]
